@@ -722,10 +722,12 @@ impl Packet {
             }
         }
 
-        let mut buf_length = 4 + self.payload.len() + self.token.len();
+        let mut buf_length = 4 + self.token.len();
         if self.header.code != MessageClass::Empty && !self.payload.is_empty()
         {
-            buf_length += 1;
+            // The payload (and its marker) is only part of the message if it
+            // is actually sent.
+            buf_length += 1 + self.payload.len();
         }
         buf_length += options_bytes.len();
 
